@@ -575,7 +575,8 @@ fn switch_to(
             s.trace_hash = fnv(s.trace_hash, u64::from(b));
         }
         if s.log_level >= 2 {
-            s.log_line(me, "switch", next as u64, 0, 0);
+            let kind = format!("switch:{site}");
+            s.log_line(me, &kind, next as u64, 0, 0);
         }
         if s.threads[me].st == St::Running {
             s.threads[me].st = St::Runnable;
